@@ -49,6 +49,15 @@ Theorem C10_fitted_serials : forall is_pdb t t', fit is_pdb t = Fitted t' ->
 Proof. exact fitted_serials. Qed.
 Print Assumptions C10_fitted_serials.
 
+From RV Require Import Proofs.C10Serial.
+
+(* serials stay within the limit when every chain is one contiguous block; the source budgets one extra serial per chain
+   but spends one per chain *change* (example: interleaved chains exceed the budget) *)
+Theorem C10_serial_bound : forall is_pdb t t' r, fit is_pdb t = Fitted t' ->
+    chain_changes (map f_chain t) < length (unique_chains t) -> In r t' -> (f_serial r <= max_pdb_serial)%Z.
+Proof. exact fitted_serial_bound. Qed.
+Print Assumptions C10_serial_bound.
+
 Definition mk (s : Z) (c : string) (n : Z) (ic : string) : frow :=
   {| f_serial := s; f_chain := L c; f_resseq := n; f_icode := L ic; f_id := Z.to_nat s |}.
 
